@@ -333,6 +333,9 @@ func isSwap(p *Path, over, i, j *Term) bool {
 		if e.Kind == "store" && e.Addr.Op == "alloc" {
 			continue // spill of a value receiver
 		}
+		if e.Kind == "call" && e.Name == "builtin.len" {
+			continue
+		}
 		if e.Kind != "store" {
 			return false
 		}
